@@ -1,6 +1,6 @@
 SPECIFICATION Spec
 CONSTANTS
   MaxLines = 5
-INVARIANTS AllOrError Accepts
+INVARIANTS AllOrError Accepts FaultReported
 PROPERTY Terminates
 CHECK_DEADLOCK FALSE
